@@ -122,7 +122,23 @@ pub fn run_scripted_with(text: &str, file: Option<&str>, names: &[String], queue
     // 2 = through `context.env.halt`, the Env was built without an embedder flag (nobody else
     // holds it); 3 = the same with `run_script(.., None)` (default Env; texts without `!print`)
     // … 4 = a new, raised flag is put into `context.env.halt`
-    let halt_mode = if text.contains("!print") { (crate::hash_str(text) / 5) % 3 } else { (crate::hash_str(text) / 5) % 5 };
+    let halt_mode = if !real.is_empty() { 0 } else if text.contains("!print") { (crate::hash_str(text) / 5) % 3 } else { (crate::hash_str(text) / 5) % 5 };
+    // real `goto`s can loop without using a scripted result (the caller asks the total model first
+    // and does not start such programs) — should a CHANGED implementation loop where the model ends,
+    // the embedder's flag is raised after 3 s and the cut-short run is compared like any other
+    let finished = Arc::new(AtomicBool::new(false));
+    if !real.is_empty() {
+        let (h, f) = (halt.clone(), finished.clone());
+        std::thread::spawn(move || {
+            for _ in 0..300 {
+                std::thread::sleep(std::time::Duration::from_millis(10));
+                if f.load(std::sync::atomic::Ordering::SeqCst) {
+                    return;
+                }
+            }
+            h.store(true, std::sync::atomic::Ordering::SeqCst);
+        });
+    }
     let shared = Rc::new(RefCell::new(Shared { queue: q, log: vec![], invocations: 0, halt_at, halt: if halt_mode == 0 { Some(halt.clone()) } else { None }, replace_flag: halt_mode == 4 }));
     let mut context = Context::new();
     for n in names {
@@ -140,7 +156,7 @@ pub fn run_scripted_with(text: &str, file: Option<&str>, names: &[String], queue
     // every shape of `Env::new(out, err, halt)`: the embedder's flag must be the one the runner
     // polls whichever writers are given (scripted commands print nothing; a shape without `out`
     // is only used for texts without a `!print` line)
-    let shape = if text.contains("!print") { 0 } else { crate::hash_str(text) % 5 };
+    let shape = if text.contains("!print") || !real.is_empty() { 0 } else { crate::hash_str(text) % 5 };
     let flag = |keep: bool| if keep { Some(halt.clone()) } else { None };
     let keep = halt_mode <= 1 || halt_mode == 4;
     let env = match shape {
@@ -155,6 +171,7 @@ pub fn run_scripted_with(text: &str, file: Option<&str>, names: &[String], queue
         Some(f) => duckscript::runner::run_script_file(f, context, env),
         None => duckscript::runner::run_script(text, context, env),
     };
+    finished.store(true, std::sync::atomic::Ordering::SeqCst);
     let sh = shared.borrow();
     let log = sh.log.iter().map(|(n, a, l)| format!("{}@{}{}", enc_str(n), l, enc_list(a))).collect::<Vec<_>>().join(";");
     match res {
